@@ -145,12 +145,8 @@ def prop(line, impl, model):
             if not (main.startswith("ok x") or main.startswith("E:")):
                 return "decoder result is neither data nor an error: " + impl[:80]
         if g == "1":
-            k = leak_key(main)
-            STATE["leaks"] = STATE.get("leaks", {})
-            STATE["leaks"][k] = STATE["leaks"].get(k, 0) + 1
-            if STATE["leaks"][k] <= 3:      # one finding, not one per input
-                return ("after the decoder returned %s the goroutine started by NewArmorDecoder is still blocked in a pipe "
-                        "write: it, the tokenizer's buffer and the source reader are never released" % main[:40])
+            return ("after the decoder returned %s the goroutine started by NewArmorDecoder is still blocked in a pipe "
+                    "write: it, the tokenizer's buffer and the source reader are never released" % main[:40])
         elif g != "0":
             return "no liveness verdict from the driver: " + impl[:80]
     elif op == "ahead":
@@ -158,6 +154,10 @@ def prop(line, impl, model):
         if mi and mm and int(mi.group(1)) > int(mm.group(1)) + 2 * LIMIT:
             return ("decoder read %s bytes of the source before blocking; a demand-driven decoder needs %s "
                     "(at most one token and one read ahead)" % (mi.group(1), mm.group(1)))
+    elif op == "aheadg":
+        if " c=over" in impl:
+            return ("decoder read %s bytes of a source that gives as much as asked for, before blocking; a demand-driven "
+                    "decoder needs %s plus at most one read of the tokenizer" % (impl.rsplit(":", 1)[-1], a[4]))
     elif op == "mon":
         if impl != "returns":
             return "decoder misbehaved on arbitrary input: " + impl[:80]
@@ -175,7 +175,7 @@ def key_of(line, impl, model):
             ok = main == "ok " + hx(expand(a[2]))
         if ok:
             return leak_key(main)
-    if a[1] == "ahead":
+    if a[1] in ("ahead", "aheadg"):
         return "unbounded-buffering"
     k = STATE.get("kind", {}).get(line)
     return k or a[1]
@@ -602,9 +602,15 @@ def gen_adversarial(ctx, add):
         add("ahead %d %d %d %s" % (rng.choice([1, 5, 64]), rng.choice([1, 4, 4096]), rng.choice([0, 1, 3]), doc_tokens(doc)), "read-ahead")
     # a long document: after the first Read the decoder has consumed one element's worth, not the document
     p = expand("g100.1")
-    long_doc = STATE["bs"] + b"<pre>\n0" + base64.b64encode(p) + b"\n</pre>\n" + b"<p>filler</p>\n" * 14000 + b"<pre>QUJD</pre>" + STATE["be"]
+    long_doc = STATE["bs"] + b"<pre>\n0" + base64.b64encode(p) + b"\n</pre>\n" + b"<p>filler</p>\n" * 40000 + b"<pre>QUJD</pre>" + STATE["be"]
     add("ahead 2048 16 1 %s" % doc_tokens(long_doc), "read-ahead-long")
     add("ahead 1000 4096 0 %s" % doc_tokens(long_doc), "read-ahead-long")
+    # ... also from a source that returns as much as each Read asks for (what the model says a byte-wise source
+    # would have delivered is given to the driver as the yardstick)
+    for rb, k in (("16", 1), ("4096", 0)):
+        m = vlib.run_model([AREA + " ahead 1 %s %d %s" % (rb, k, doc_tokens(long_doc))])[0]
+        need = int(m.rsplit("c=", 1)[1])
+        add("aheadg %s %d %d %s" % (rb, k, need, doc_tokens(long_doc)), "read-ahead-greedy")
 
 
 def consts_crosscheck(ctx, boiler):
